@@ -189,9 +189,7 @@ func (e *verifEnv) deletePending(t, p int) {
 
 func (e *verifEnv) moveToActive(t, p, v int) {
 	c := e.conns[t][p][v]
-	if verif.Bool("conn_closed") {
-		conn.VerifMarkClosed(c)
-	}
+	e.mayClose(c)
 	err := e.s.MovePendingToActive(c)
 	if err == nil {
 		verif.Assert("activated-only-from-pending", e.g[t][p].status == verifPending)
@@ -200,8 +198,23 @@ func (e *verifEnv) moveToActive(t, p, v int) {
 	}
 }
 
+// mayClose: a connection can close at any moment (remote side, preemption);
+// before an operation that involves c it is, symbolically, already closed or
+// still open. Once closed it stays closed.
+func (e *verifEnv) mayClose(c *conn.Conn) {
+	if !c.IsClosed() && verif.Bool("conn_closed") {
+		conn.VerifMarkClosed(c)
+	}
+}
+
 func (e *verifEnv) deleteActive(t, p, v int) {
 	g := e.g[t][p]
+	e.mayClose(e.conns[t][p][v])
+	if g.status == verifActive && g.ver != v {
+		// the tracked (newer) connection may itself be closed already while
+		// its own close event is still on its way
+		e.mayClose(e.conns[t][p][g.ver])
+	}
 	e.s.DeleteActive(e.conns[t][p][v])
 	if g.status == verifActive && g.ver == v {
 		e.g[t][p] = verifGhostEntry{}
